@@ -425,6 +425,43 @@ def run(ctx):
                                           f"{label}: {A!r} and {B_!r} after {phase} recalibration(s): measurand {gotm!r}, the declarations in force give {wantm!r}", state["case"])
     except KeyError:
         ctx.count("user_scale_section_skipped")
+    # augmented assignment (reading *= gain, total += sample): the name is rebound to what the binary operator gives - the
+    # same measurand and the same uncertainty - and the object that was aliased is what it was
+    import copy as _copy
+    import operator as _op
+    U2 = m.Unit._by_name
+    for _ in range(80 if ctx.tier == "quick" else 4000):
+        ua, ub = U2["meter"], rng.choice([U2["second"], U2["meter"], m.One])
+        x, y = rng.choice([2.0, 7.5, -3.0, 120.0]), rng.choice([3.0, 0.5, 8.0])
+        sx, sy = rng.choice([0.1, 0, 1.5]), rng.choice([0.2, 0, 0.05])
+        A, B_ = Mt(Q(x, ua), sx), Mt(Q(y, ub), sy)
+        right = rng.choice([B_, B_.measurand, y])
+        for sym, ifn, fn in (("*=", _op.imul, _op.mul), ("/=", _op.itruediv, _op.truediv), ("+=", _op.iadd, _op.add), ("-=", _op.isub, _op.sub), ("**=", _op.ipow, _op.pow)):
+            if sym in ("+=", "-=") and (ub is not ua or right is y):
+                continue
+            operand = 2 if sym == "**=" else right
+            state["case"] = {"op": sym, "left": repr(A), "right": repr(operand), "augmented_assignment": True}
+            ctx.count("evaluations")
+            ctx.count("cells/augmented_assignment")
+            try:
+                want = fn(_copy.copy(A), operand)
+            except Exception:
+                ctx.count("no_answer/augmented_assignment")
+                continue
+            keep = A
+            alias = A
+            try:
+                alias = ifn(alias, operand)
+            except Exception as ex:
+                ctx.violation(f"C14:augmented-assignment-raised:{type(ex).__name__}", f"a {sym} b raised {ex} where a {sym[:-1]} b answers", state["case"])
+                continue
+            ctx.distinct(("augmented", sym, type(operand).__name__, bool(sx), bool(sy)), True)
+            same = lambda p, q: abs(core.sf(p) - core.sf(q)) <= 1e-12 * max(1.0, abs(core.sf(q)))
+            if alias.measurand.unit is not want.measurand.unit or not same(alias.measurand.magnitude, want.measurand.magnitude) or not same(alias.uncertainty.magnitude, want.uncertainty.magnitude):
+                ctx.violation(f"C14:augmented-assignment-differs-from-the-operator:{sym}", f"a = {A!r}; a {sym} {operand!r} gives {alias!r}, a {sym[:-1]} b gives {want!r}", state["case"])
+            if keep.measurand.magnitude != x or core.sf(keep.uncertainty.magnitude) != sx:
+                ctx.violation(f"C14:augmented-assignment-changed-the-aliased-operand:{sym}", f"after y = a; y {sym} {operand!r} the measurement a is {keep!r} (it was {x} +- {sx})", state["case"])
+                A = Mt(Q(x, ua), sx)
     # quotients (and products back) of very large or very small float readings: the operands' ratio and every
     # partial-derivative term are ordinary numbers, only a careless intermediate product would leave the float range
     U_ = m.Unit._by_name
